@@ -65,10 +65,17 @@ def save_baseline(name, universe_hash, repo_rev, case_sig, meta=None):
         g.write(json.dumps(d, sort_keys=True, separators=(",", ":")).encode("utf-8"))
 
 
+def atoms(signature):
+    return set(str(signature).split(";"))
+
+
 def classify(baseline_map, case, signature):
-    """-> 'known' | 'new-case' | 'new-signature'"""
+    """-> 'known' | 'new-case' | 'new-signature'.
+
+    A signature is a ';'-joined set of atomic mechanisms.  On a baseline input, observing a subset of
+    the recorded mechanisms is known; any mechanism not recorded for that input is a different violation."""
     if baseline_map is None or case not in baseline_map:
         return "new-case"
-    if baseline_map[case] == signature:
+    if atoms(signature) <= atoms(baseline_map[case]):
         return "known"
     return "new-signature"
